@@ -200,6 +200,9 @@ class World:
         # a centre just outside the bounding box: spheres around it cut the grid partially
         edge = c.min(axis=0) - np.array([2.1, 0.4, 0.9])[:dim]
         self.centres = [c[len(c) // 2].copy(), gen, far, edge]
+        if small:
+            # a fifth centre 1e-7 away from the first: distinct queries that a tolerance-keyed memo would confuse
+            self.centres.append(self.centres[0] + 1e-7)
         if p0.ndim == 1:
             self.centres = [np.float64(v[0]) for v in self.centres]
 
@@ -210,7 +213,7 @@ class World:
         if self.grid is None:
             return []
         if self.small:
-            evs = [("Q", ci, ri) for ci in (0, 3) for ri in (2, 3)] + [("SW", 1), ("SP", 1)]
+            evs = [("Q", ci, ri) for ci in (0, 3, 4) for ri in (2, 3)] + [("SW", 1), ("SP", 1)]
             if self.last is not None and not self.edited:
                 evs.append(("EL",))
             return evs
